@@ -268,7 +268,7 @@ func (c cmdCase) op(dir string) map[string]any {
 	if c.Lazy {
 		args = append(args, "-lazy", "-duration", "2s") // the end of the list stops the attack long before; the bound only keeps a run finite
 	} else if c.DNSDest == "expire" {
-		args = append(args, "-duration", "2s")
+		args = append(args, "-duration", "3s")
 	} else if c.Stall {
 		args = append(args, "-duration", "1200ms", "-timeout", "100ms")
 	} else {
@@ -599,7 +599,7 @@ func TestDrv_E2E(t *testing.T) {
 		}
 		e2eDNSMu.Lock()
 		o["dnsq"] = e2eDNSQueries[c.dnsName(fmt.Sprintf("e2e%03d", k))+"."]
-		// (expire) successes before the name was gone, and results - successes among them - from 700 ms after that on
+		// (expire) successes before the name was gone, and results - successes among them - from 1.5 s after that on
 		earlyOK, lateOK, lateN := 0, 0, 0
 		if first, ok := e2eDNSFirst[c.dnsName(fmt.Sprintf("e2e%03d", k))+"."]; ok && c.DNSDest == "expire" {
 			gone := first.Add(e2eDNSLife)
@@ -607,7 +607,7 @@ func TestDrv_E2E(t *testing.T) {
 				switch {
 				case ts.at.Before(gone) && ts.ok:
 					earlyOK++
-				case ts.at.After(gone.Add(700 * time.Millisecond)):
+				case ts.at.After(gone.Add(1500 * time.Millisecond)): // (fifteen refresh periods: also on a machine busy with other things)
 					lateN++
 					if ts.ok {
 						lateOK++
